@@ -189,6 +189,15 @@ EXTRA = _RTR + [
     # ---- C02
     ('encodeVerifyDerLength', 'src/repository/sigobj.rs',
      r'pub fn encode_verify\(&self\) -> Vec<u8> \{([\s\S]*?)\n    \}', lambda m: _encode_verify(m), ['C02', 'C10']),
+    # ---- C10
+    ('sigmsgValidateSteps', 'src/ca/sigmsg.rs',
+     r'pub fn validate_at\(\s*&self, issuer_key: &PublicKey, when: Time\s*\) -> Result<\(\), ValidationError> \{\s*(self\.inspect\(\)\?;\s*self\.verify\(\)\?;\s*self\.ee_cert\.validate_ee_at\(issuer_key, when\)\?;\s*self\.crl\.validate\(issuer_key, when\)\?;\s*self\.crl\.verify_not_revoked\(&self\.ee_cert\)\?;\s*Ok\(\(\)\))',
+     lambda m: True, ['C10']),
+    ('idcertEeSteps', 'src/ca/idcert.rs',
+     r'pub fn validate_ee_at\([\s\S]*?\{\s*(self\.inspect_basics\(\)\?;\s*self\.verify_validity\(now\)\?;\s*self\.verify_issuer_key\(issuer_key\)\?;[\s\S]*?if basic_ca \{\s*return Err[\s\S]*?self\.verify_signature\(issuer_key\)\.map_err\(VerificationError::new\)\?;\s*Ok\(\(\)\))',
+     lambda m: True, ['C10']),
+    ('sigmsgCrlWindow', 'src/ca/sigmsg.rs',
+     r'(if self\.this_update > when \{[\s\S]*?else if self\.next_update < when \{)', lambda m: True, ['C10']),
     # ---- C14
     ('mftExtLen', 'src/repository/manifest.rs', r'fn validate_file_name\(name: &\[u8\]\)[\s\S]*?if n\.len\(\) != (\d+) \|\| !n\.iter\(\)\.all\(\|c\| c\.is_ascii_alphabetic\(\)\)', 'nat', ['C14']),
     ('mftNameCheckedBothSites', 'src/repository/manifest.rs',
